@@ -69,7 +69,9 @@ ReadRest(seq) == LET k == CHOOSE k \in 0 .. Len(seq) : ReadSplit(seq, k) IN SubS
 Read(seq) == /\ ReadOK(seq)
              \* (d) relative order of the services present before and after
              /\ prevRead # <<>> =>
-                  LET common == Range(ref) \cap Range(prevRead) IN
+                  \* services named by hints are left out of the comparison: where the hint prefix ends
+                  \* is ambiguous for them (repeated hints, hinted services omitted from the rest)
+                  LET common == (Range(ref) \cap Range(prevRead)) \ Range(hints) IN
                   Restrict(ReadRest(seq), common) = Restrict(prevRead, common)
              /\ curRead' = ReadRest(seq)
              /\ UNCHANGED <<ref, writable, hints, prevRead, prevWrite, prevBal, curWrite, curBal, phase>>
